@@ -72,7 +72,15 @@ RA == {Rr, Uu, RealC(<<1, 2>>), Op("plus", <<Rr, Uu>>), Op("minus", <<Rr, RealC(
 AR1 == {Op(o, <<a, b>>) : o \in {"times", "plus", "minus"}, a \in IA, b \in IA}
        \cup {Op(o, <<a, b>>) : o \in {"times", "plus", "minus"}, a \in RA, b \in RA}
        \cup {Op("times", <<a, b, c>>) : a \in {X, Op("plus", <<X, Y>>)}, b \in IA, c \in {IntC(2), Op("minus", <<Y, X>>)}}
-ARITH == AR1 \cup {Op("le", <<t, IntC(0)>>) : t \in {u \in AR1 : TyF(u) = TInt}}
+\* n-ary products with the literal -1 (first / middle / last) and their subtraction, also produced by distribution
+NegProds == {Op("times", fs) : fs \in {<<IntC(-1), X, Y>>, <<X, IntC(-1), Y>>, <<X, Y, IntC(-1)>>, <<IntC(-1), X, Y, X>>,
+                                       <<IntC(-1), Op("plus", <<X, Y>>), Y>>, <<IntC(-1), IntC(-1), X>>, <<IntC(-1), X>>}}
+AR2 == NegProds \cup {Op("minus", <<a, t>>) : a \in {X, IntC(0), Op("plus", <<X, Y>>)}, t \in NegProds}
+       \cup {Op("minus", <<t, a>>) : a \in {Y, IntC(2)}, t \in NegProds}
+       \cup {Op("minus", <<X, Op("minus", <<Y, t>>)>>) : t \in NegProds}
+       \cup {Op("times", <<Op("minus", <<X, t>>), Op("plus", <<Y, IntC(1)>>)>>) : t \in NegProds}
+       \cup {Op("minus", <<Rr, Op("times", <<RealC(<<-1, 1>>), Rr, Uu>>)>>), Op("minus", <<Rr, Op("times", <<RealC(<<-1, 1>>), Op("plus", <<Rr, Uu>>), Uu>>)>>)}
+ARITH == AR1 \cup AR2 \cup {Op("le", <<t, IntC(0)>>) : t \in {u \in AR1 \cup AR2 : TyF(u) = TInt}}
          \cup {Op("times", <<t, Op("plus", <<X, IntC(1)>>)>>) : t \in {u \in AR1 : TyF(u) = TInt /\ u.op = "times"}}
 
 \* ---- equalities for propagate_toplevel
